@@ -187,6 +187,10 @@ var corpus = []string{
 	`construct {?s "new"@[] ?o} into ?b, ?c from ?a where {?s "p"@[,] ?o} having ?s = /u<a>;`,
 	`construct {?s ?p ?o . _:v "_subject"@[] ?s . _:v "_predicate"@[] ?p} into ?b from ?a where {?s ?p ?o};`,
 	`construct {?s "p1"@[] ?o ; "p2"@[2006-01-02T15:04:05Z] ?r . /u<x> "p3"@[] "1"^^type:int64} into ?b from ?a where {?s "p"@[] ?o . ?o "p"@[] ?r};`,
+	// reified facts (';') whose own object is a literal, a predicate and a node: written in the statement and bound by WHERE
+	`construct {?s "kind"@[] "person"^^type:text ; "since"@[] ?o} into ?b from ?a where {?s "p"@[] ?o};`,
+	`construct {?s "pred"@[] "q"@[2006-01-02T15:04:05Z] ; "since"@[] ?o} into ?b from ?a where {?s "p"@[] ?o};`,
+	`construct {?s "copy"@[] ?o ; "via"@[] ?p} into ?b, ?c from ?a where {?s ?p ?o};`,
 	`construct {?s "at"@[?t] ?o} into ?b from ?a where {?s "p"@[?t] ?o};`,
 	`construct {?o "new"@[] ?s} into ?b from ?a where {?s "p"@[] ?o};`,
 	`construct {?s ?o ?p} into ?b from ?a where {?s ?p ?o};`,
